@@ -308,6 +308,10 @@ class Distribution(Density, ABC):
         # (This is added by the _parse_args_add_to_kwargs method)
         # If so we convert to likelihood with that parameter.
         if "_main_parameter" in kwargs:
+            # The main parameter was given by position, so every keyword must have been used above
+            unused_kwargs = set(kwargs.keys()) - processed_kwargs - {"_main_parameter"}
+            if len(unused_kwargs)>0:
+                raise ValueError(f"{self._condition.__qualname__}: The main parameter is given as positional argument, but the keyword arguments {unused_kwargs} are not conditioning variables of this distribution.")
             return new_dist.to_likelihood(kwargs["_main_parameter"])
 
         # Check if any keywords were not used
@@ -319,14 +323,14 @@ class Distribution(Density, ABC):
         # of a distribution by walking the python stack.
         if len(unused_kwargs)>0:
 
+            # KEYWORD ERROR CHECK
+            for kw_key in kwargs.keys():
+                if kw_key not in (mutable_vars+cond_vars+[self.name]):
+                    raise ValueError("The keyword \"{}\" is not a mutable, conditioning variable or parameter name of this distribution.".format(kw_key))
+
             if self.name in kwargs:
                 # If name matches we convert to likelihood
-                return new_dist.to_likelihood(kwargs[self.name])  
-            else:
-                # KEYWORD ERROR CHECK
-                for kw_key in kwargs.keys():
-                    if kw_key not in (mutable_vars+cond_vars+[self.name]):
-                        raise ValueError("The keyword \"{}\" is not a mutable, conditioning variable or parameter name of this distribution.".format(kw_key))       
+                return new_dist.to_likelihood(kwargs[self.name])
 
         return new_dist
 
